@@ -455,13 +455,6 @@ def run_check(pid, tier, base, workers=None, count=None, selftest=True):
         if herr:
             print("HARNESS-ERROR in %d scenario(s); first:\n%s" % (len(herr), herr[0]["harness_error"]))
             return EXIT_HARNESS
-        st = {"ok": True, "n": 0, "skipped": True}
-        if selftest:
-            detail = {i: s for i, s in batch.detail.items() if i < n_self}
-            st = determinism_selftest(pid, mod, tier, base, detail, n_self, scratch_root, workers)
-            if not st["ok"]:
-                print("HARNESS-ERROR determinism self-test failed: %s" % st["mismatches"])
-                return EXIT_HARNESS
         # ---- triage
         known_hits = Counter()
         unknown = []
@@ -472,6 +465,18 @@ def run_check(pid, tier, base, workers=None, count=None, selftest=True):
                     known_hits[v["sig"]] += 1
                 else:
                     unknown.append((s, v))
+        # ---- determinism self-test.  Only when nothing unlisted was found: a defect that keeps process-global
+        # state makes runs depend on what ran before in the same worker, and must be reported as the violation it
+        # is, not as a harness error.
+        st = {"ok": True, "n": 0, "skipped": True}
+        if selftest and not unknown:
+            detail = {i: s for i, s in batch.detail.items() if i < n_self}
+            st = determinism_selftest(pid, mod, tier, base, detail, n_self, scratch_root, workers)
+            if not st["ok"]:
+                print("HARNESS-ERROR determinism self-test failed: %s" % st["mismatches"])
+                return EXIT_HARNESS
+        elif selftest:
+            st = {"ok": True, "n": 0, "skipped": "unlisted violations found; the self-test is run only on clean batches"}
         for sig, cnt in sorted(known_hits.items()):
             e = known[(pid, sig)]
             print("KNOWN-FINDING: property=%s %s [%s] (%d scenario hits this run)" % (pid, e["what_fails"], sig, cnt))
